@@ -142,6 +142,60 @@ def implTransform2 (m : Mem) (s1 s2 d : View) (f : Nat → Nat → Nat) : Mem :=
   ((List.range d.h).flatMap (fun y => (List.range d.w).map (fun x => (s1.addr x y, s2.addr x y, d.addr x y)))).foldl
     (fun m p => m.set p.2.2 (f (m.get p.1) (m.get p.2.1))) m
 
+
+/-! ### overlapping source and destination (copy_pixels inside one buffer)
+
+  `std::copy` over an x-iterator run is a BLOCK MOVE for some iterator types: the `pixel<T,CS>*` overload copies the bytes with
+  `std::copy(unsigned char*)` (memmove), the `planar_pixel_iterator` overload does that per plane, and libstdc++ turns `std::copy` over raw
+  pointers to a trivially copyable pixel type (packed pixels) into memmove as well.  A block move reads the whole source run before it writes
+  (every destination pixel receives the ORIGINAL source pixel); every other iterator (step adaptors, bit-aligned iterators, mixed types) is
+  the forward element loop, which reads each source pixel at the moment it is copied.  One block = one `copier_n` / `copy_n` call: the whole
+  view when both sides are 1-D traversable (`copier_n<I,O>`: `std::copy(src, src+n, dst)`, GIL's overloads visible), otherwise one row
+  (`numToCopy = min(n, width - x_pos)` = a row, the views have equal widths) through `detail::copy_n` of utilities.hpp, whose qualified
+  `std::copy` call is bound BEFORE GIL's overloads are declared: there only libstdc++'s own memmove (trivially copyable pixel types: packed
+  pixels) is a block move, interleaved `pixel<T,CS>` and planar rows are copied by the element loop.  Hence two flags. -/
+
+/-- block move of a list of (source cell, destination cell): all reads happen in the initial memory -/
+def snapshotPairs (m : Mem) (ps : List (Int × Int)) : Mem :=
+  (ps.map (fun p => (p.2, m.get p.1))).foldl (fun acc p => acc.set p.1 p.2) m
+
+/-- the row chunks of copy_with_2d_iterators when at least one side is not 1-D traversable -/
+def copyRows (s d : View) : List (List (Int × Int)) :=
+  (List.range d.h).map (fun y => (List.range d.w).map (fun x => (s.addr x y, d.addr x y)))
+
+/-- copy_pixels as the code performs it, including what happens when source and destination overlap.
+    `block1d` / `blockRow`: the whole-view run / a row run through the two x-iterators is a block move (see above) -/
+def implCopyOv (block1d blockRow : Bool) (m : Mem) (s d : View) : Mem :=
+  if s.is1d && d.is1d then
+    if block1d then snapshotPairs m (implCopyPairs s d) else implCopy m s d
+  else
+    if blockRow then (copyRows s d).foldl snapshotPairs m else implCopy m s d
+
+/-! ### uninitialized_fill_pixels, uninitialized_copy_pixels, default_construct_pixels, destruct_pixels -/
+
+/-- uninitialized_fill_pixels: 1-D traversable: one uninitialized_fill_aux over the x-iterator run, else row by row
+    (planar: per channel plane, which at cell level is the same set of cells in the same order) -/
+def implUninitFill (m : Mem) (d : View) (v : Nat) : Mem :=
+  (if d.is1d then run1d d (d.w * d.h)
+   else (List.range d.h).flatMap (fun y => (List.range d.w).map (fun x => d.addr x y))).foldl (fun m a => m.set a v) m
+
+/-- uninitialized_copy_pixels: BOTH views 1-D traversable: one run through the x-iterators; otherwise row by row
+    (a two-way split, unlike copy_pixels' four-way dispatch) -/
+def implUninitCopyPairs (s d : View) : List (Int × Int) :=
+  if s.is1d && d.is1d then (run1d s (s.w * s.h)).zip (run1d d (d.w * d.h)) else rowPairs s d
+/-- `proxyNoStore`: DEFECT of the current tree (finding C04-uninitialized-copy-bit-aligned-step-views): for bit-aligned views of which at
+    least one x-iterator is a step adaptor, std::uninitialized_copy placement-constructs a temporary proxy reference at `&*dst` instead of
+    storing the pixel: nothing is copied.  (Two plain bit-aligned iterators: libstdc++ takes its trivial-type shortcut to std::copy, which
+    assigns through the proxies.) -/
+def implUninitCopy (proxyNoStore : Bool) (m : Mem) (s d : View) : Mem :=
+  if proxyNoStore then m else applyPairs m (implUninitCopyPairs s d)
+
+/-- default_construct_pixels / destruct_pixels: `trivial` (has_trivial_pixel_constructor / is_trivially_destructible, or the x-iterator
+    is not a raw pointer): nothing is executed.  Otherwise the value-initialising placement new runs over the same two-way traversal as
+    fill_pixels and leaves `v0` (the value-initialised pixel) in every pixel of the view. -/
+def implDefaultConstruct (trivial : Bool) (m : Mem) (d : View) (v0 : Nat) : Mem :=
+  if trivial then m else implUninitFill m d v0
+
 /-- cells of a view -/
 def View.cells (v : View) : List Int := specAddrs v
 
